@@ -111,6 +111,8 @@ struct V {
     early_returns: BTreeMap<(String, String), Vec<String>>, // fn -> conditions of leading `if c { return Ok(..) }`
     fs_writes: Vec<(String, String, usize)>,
     breaks: Vec<(String, String, usize)>,
+    consts: Vec<(String, String, u64)>,          // (file, NAME, value) of integer constants
+    patterns: Vec<(String, u64)>,                // detect.rs build_patterns: (pattern name, FNV-1a of the regex source)
     module_calls: std::collections::BTreeSet<(String, String)>,
     imports: BTreeMap<String, String>, // imported function name -> module it comes from (this file)
     seq: usize,
@@ -250,6 +252,20 @@ const MODULES: &[&str] = &["stream", "finalize", "migrate", "backup", "analysis"
 const FS_WRITES: &[&str] = &["File::create", "fs::write", "fs::remove_file", "fs::remove_dir_all", "fs::remove_dir", "fs::create_dir_all", "fs::create_dir",
     "fs::rename", "fs::copy", "fs::set_permissions", "OpenOptions::new", "fs::hard_link", "File::create_new"];
 
+fn eval_int(e: &Expr) -> Option<u64> {
+    match e {
+        Expr::Lit(l) => match &l.lit { syn::Lit::Int(i) => i.base10_parse::<u64>().ok(), _ => None },
+        Expr::Paren(p) => eval_int(&p.expr),
+        Expr::Binary(b) => {
+            let (x, y) = (eval_int(&b.left)?, eval_int(&b.right)?);
+            match b.op { syn::BinOp::Mul(_) => x.checked_mul(y), syn::BinOp::Add(_) => x.checked_add(y), syn::BinOp::Shl(_) => x.checked_shl(y as u32), _ => None }
+        }
+        _ => None,
+    }
+}
+
+fn fnv1a(s: &str) -> u64 { let mut h: u64 = 0xcbf29ce484222325; for b in s.bytes() { h ^= b as u64; h = h.wrapping_mul(0x100000001b3); } h }
+
 fn use_leaves(t: &syn::UseTree, prefix: &mut Vec<String>, out: &mut Vec<(Vec<String>, String)>) {
     match t {
         syn::UseTree::Path(p) => { prefix.push(p.ident.to_string()); use_leaves(&p.tree, prefix, out); prefix.pop(); }
@@ -268,6 +284,31 @@ impl<'ast> Visit<'ast> for V {
             // struct fields are matched by name within the file that declares the struct (no type inference across files)
             if let Some(id) = &f.ident { HASH_FIELDS.with(|h| { let n = format!("{}::{}", self.file, id); if !h.borrow().contains(&n) { h.borrow_mut().push(n) } }); }
         }
+    }
+    fn visit_item_const(&mut self, c: &'ast syn::ItemConst) {
+        if self.in_test { return; }
+        if let Some(v) = eval_int(&c.expr) { self.consts.push((self.file.clone(), c.ident.to_string(), v)); }
+        syn::visit::visit_item_const(self, c);
+    }
+    fn visit_expr_struct(&mut self, st: &'ast syn::ExprStruct) {
+        // detect.rs: SecretPattern { name: "x".to_string(), regex: Regex::new(r"..") …, capture_group: … }
+        if !self.in_test && self.file == "detect" && st.path.to_token_stream().to_string().ends_with("SecretPattern") {
+            let mut name = None; let mut rx = None; let mut grp = String::new();
+            for f in &st.fields {
+                let k = f.member.to_token_stream().to_string();
+                let toks = f.expr.to_token_stream().to_string();
+                if k == "name" { if let Some(a) = toks.find('"') { if let Some(b) = toks[a + 1..].find('"') { name = Some(toks[a + 1..a + 1 + b].to_string()); } } }
+                if k == "regex" {
+                    // the first string literal inside the expression is the pattern source
+                    struct L(Option<String>);
+                    impl<'a> Visit<'a> for L { fn visit_lit_str(&mut self, l: &'a syn::LitStr) { if self.0.is_none() { self.0 = Some(l.value()); } } }
+                    let mut l = L(None); l.visit_expr(&f.expr); rx = l.0;
+                }
+                if k == "capture_group" { grp = toks.replace(' ', ""); }
+            }
+            if let (Some(n), Some(r)) = (name, rx) { self.patterns.push((n, fnv1a(&format!("{r}|{grp}")))); }
+        }
+        syn::visit::visit_expr_struct(self, st);
     }
     fn visit_item_use(&mut self, u: &'ast syn::ItemUse) {
         if self.in_test { return; }
@@ -489,7 +530,7 @@ impl<'ast> Visit<'ast> for V {
 fn main() {
     let src_dir = std::env::args().nth(1).unwrap_or_else(|| "/repo/filter-repo-rs/src".to_string());
     let mut v = V { file: String::new(), func: String::new(), guards: vec![], sites: vec![], events: BTreeMap::new(), wait_vars: BTreeMap::new(),
-        hash_vars: vec![], hash_iter: vec![], dry_reads: vec![], clock_reads: vec![], early_returns: BTreeMap::new(), fs_writes: vec![], breaks: vec![], module_calls: Default::default(), imports: BTreeMap::new(), seq: 0, in_test: false, cleanup_arm: None, fn_uses_thread: false };
+        hash_vars: vec![], hash_iter: vec![], dry_reads: vec![], clock_reads: vec![], early_returns: BTreeMap::new(), fs_writes: vec![], breaks: vec![], consts: vec![], patterns: vec![], module_calls: Default::default(), imports: BTreeMap::new(), seq: 0, in_test: false, cleanup_arm: None, fn_uses_thread: false };
     let pass = |v: &mut V, files: &Vec<std::path::PathBuf>| {
         for path in files {
             let name = path.file_stem().unwrap().to_string_lossy().to_string();
@@ -507,7 +548,7 @@ fn main() {
     files.sort();
     // pass 1: find the generic runners (a git command whose subcommand comes from an `args` parameter)
     let mut v1 = V { file: String::new(), func: String::new(), guards: vec![], sites: vec![], events: BTreeMap::new(), wait_vars: BTreeMap::new(),
-        hash_vars: vec![], hash_iter: vec![], dry_reads: vec![], clock_reads: vec![], early_returns: BTreeMap::new(), fs_writes: vec![], breaks: vec![], module_calls: Default::default(), imports: BTreeMap::new(), seq: 0, in_test: false, cleanup_arm: None, fn_uses_thread: false };
+        hash_vars: vec![], hash_iter: vec![], dry_reads: vec![], clock_reads: vec![], early_returns: BTreeMap::new(), fs_writes: vec![], breaks: vec![], consts: vec![], patterns: vec![], module_calls: Default::default(), imports: BTreeMap::new(), seq: 0, in_test: false, cleanup_arm: None, fn_uses_thread: false };
     pass(&mut v1, &files);
     for s in &v1.sites {
         let has_sub = s.args.iter().any(|a| a.as_ref().map_or(false, |l| sub_ctor(l).is_some()));
@@ -592,6 +633,16 @@ fn main() {
     out.push_str("/-- (caller file, callee file): a function of the second module is called by path or through a `use` import from the first (method calls on foreign types are not followed) -/\ndef moduleCalls : List (SrcFile × SrcFile) := [\n");
     out.push_str(&v.module_calls.iter().map(|(a, b)| format!("  (.{}, .{})", file_ctor(a), file_ctor(b))).collect::<Vec<_>>().join(",\n"));
     out.push_str("\n]\n\n");
+    // integer constants the model mirrors, and the built-in secret patterns (name order + hash of regex source and capture group)
+    let cname = |f: &str, n: &str| -> Option<&'static str> { Some(match (f, n) {
+        ("detect", "MAX_DETECTED_VALUES") => "maxDetectedValues", ("detect", "MAX_SCAN_BLOB_BYTES") => "maxScanBlobBytes",
+        ("limits", "MAX_DATA_BLOCK_SIZE") => "maxDataBlockSize", ("stream", "STRIP_SHA_ON_DISK_THRESHOLD") => "stripShaOnDiskThreshold",
+        ("stream", "SHA_HEX_LEN") => "shaHexLen", ("message", "MIN_SHORT_HASH_LEN") => "minShortHashLen", _ => return None }) };
+    out.push_str("def consts : List (ConstName × Nat) := [\n");
+    out.push_str(&v.consts.iter().filter_map(|(f, n, val)| cname(f, n).map(|c| format!("  (.{c}, {val})"))).collect::<Vec<_>>().join(",\n"));
+    out.push_str("\n]\n\n/-- detect.rs build_patterns, in order: FNV-1a of \"<regex source>|<capture group expression>\" -/\ndef secretPatterns : List Nat := [\n");
+    out.push_str(&v.patterns.iter().map(|(_, h)| format!("  {h}")).collect::<Vec<_>>().join(",\n"));
+    out.push_str(&format!("\n]\n\n/- secretPatterns names: {}\n-/\n\n", v.patterns.iter().map(|(n, _)| n.clone()).collect::<Vec<_>>().join(", ")));
     // `break` inside functions that read a child's piped stdout (leaving the reader loop before EOF and then waiting is finding F7)
     let piped_fns: std::collections::BTreeSet<(String, String)> = v.sites.iter().filter(|s| s.stdout_piped).map(|s| (s.file.clone(), s.func.clone())).collect();
     let reader_breaks: Vec<(String, String, usize)> = v.breaks.iter().filter(|(f, func, _)| piped_fns.contains(&(f.clone(), func.clone()))).cloned().collect();
